@@ -265,6 +265,7 @@ class Session:
         self.seen_bytes = 0
         self.done_ids = set()
         self.cur = None  # case id in flight
+        self.stage = None  # C18: case id whose partitioning stage is over
         self.finished = False
 
 
@@ -337,6 +338,8 @@ class Runner:
             s.last_progress = time.time()
             if "begin" in d:
                 s.cur = d["begin"]
+            elif "stage" in d:
+                s.stage = d["stage"]
             elif "id" in d:
                 s.done_ids.add(d["id"])
                 if s.cur == d["id"]:
@@ -893,6 +896,7 @@ def run_check(a, prop, tier, exe, workdir, deadline_at):
     unconfirmed = []
     crash_runs = {}  # cid -> runs that ended in a crash / hang
     launch_failures = [0]
+    partition_failures = {}  # C18 only: C19 key -> cids
     next_sid = [len(sessions) + 1000]
 
     def cell_of(cid):
@@ -1001,6 +1005,23 @@ def run_check(a, prop, tier, exe, workdir, deadline_at):
             hosts, threads, c = by_cid[blamed]
             kind, where = diag["kind"], diag["where"]
             pre = "cusp" if prop == "C19" else "gluon"
+            if prop == "C18" and s.stage != blamed:
+                # died while PARTITIONING: that is property C19's finding
+                # (its check reports it with the same location); here the
+                # case is only counted as not explorable
+                k19 = "cusp:%s%s" % (kind, "@" + where if where else "")
+                if k19 not in partition_failures:
+                    log("# %s in the partitioning stage of %s (C19's "
+                        "finding, not a Gluon verdict): %s" % (
+                            kind, case_name(c, hosts), diag["text"][-300:]))
+                partition_failures.setdefault(k19, set()).add(blamed)
+                crash_runs[blamed] = crash_runs.get(blamed, 0) + 1
+                rest = [(cid, c2) for (cid, c2) in rest if cid != blamed]
+                if rest:
+                    ns = Session(next_sid[0], s.hosts, s.threads, rest, s.rep)
+                    next_sid[0] += 1
+                    new.append(ns)
+                return new
             if where:
                 key = "%s:%s@%s" % (pre, kind, where)
             else:
@@ -1111,6 +1132,8 @@ def run_check(a, prop, tier, exe, workdir, deadline_at):
                unconfirmed=unconfirmed)
     if prop == "C18":
         doc["encodings_seen"] = enc_total
+        doc["partition_stage_failures"] = {
+            k: len(v) for k, v in partition_failures.items()}
     if a.out:
         with open(a.out, "w") as f:
             json.dump(doc, f, indent=1)
@@ -1122,6 +1145,9 @@ def run_check(a, prop, tier, exe, workdir, deadline_at):
     for (h, t), (sec, n) in sorted(runner.group_time.items()):
         log("# sessions h=%d t=%d: %d case runs in %.0f session-seconds "
             "(%.0f ms per case run)" % (h, t, n, sec, 1000.0 * sec / max(n, 1)))
+    for k, v in sorted(partition_failures.items()):
+        log("# %d cases could not be explored: %s while partitioning "
+            "(reported by C19)" % (len(v), k))
     if launch_failures[0]:
         log("# %d mpirun launches failed or stalled in MPI_Init and were "
             "repeated (machinery, not a verdict)" % launch_failures[0])
